@@ -39,6 +39,8 @@ def pay(coding):
             _PAY[coding] = b'\x40' * NPAY
         elif coding == 'zero':
             _PAY[coding] = b'\x00' * NPAY
+        elif coding == 'ws':
+            _PAY[coding] = (b' \n\t\r' * (NPAY // 4 + 1))[:NPAY]
         else:
             raise core.Broken('coding ' + coding)
     return _PAY[coding]
@@ -144,7 +146,7 @@ def expand(batch):
                                                     'seed': _SEED}, why, 'reference blocking of the bytes written')
             for n in sizes:
                 codings = ('pos',) if (len(sizes) > 1000 and not (n < 3 or n % 1012 < 3 or n % 1012 > 1009)) \
-                    else ('pos', 'fill', 'zero')
+                    else ('pos', 'fill', 'zero', 'ws')
                 for coding in codings:
                     try:
                         k, why, delta = one_transition(hist, n, coding)
@@ -179,7 +181,7 @@ def oneshot_task(task):
     """one-shot block_1014 == reference for every payload length in the task's range"""
     from cardutil.mciipm import block_1014
     acc = core.Acc()
-    for coding in ('pos', 'fill'):
+    for coding in ('pos', 'fill', 'zero', 'ws'):
         data = pay(coding)
         for L in range(task['lo'], task['hi']):
             out = io.BytesIO()
@@ -220,7 +222,7 @@ def run(tier, seed):
                                           '2022..2028, 3034..3040, 6000; r = bytes free in the block', top),
         'assumptions': ['only the finalised output is judged (the statement does not constrain the file between '
                         'writes)', 'content codings: position code of period 251 without 0x00/0x40, all-0x40, '
-                        'all-0x00', 'single writes above 39000 bytes are not explored'],
+                        'all-0x00, ASCII whitespace bytes', 'single writes above 39000 bytes are not explored'],
         'bounds': {'write_size_max': 3040 if tier == 'thorough' else 'menu', 'histories_per_state': 2,
                    'payload_residues_reached': len(residues)},
         'exhaustive': not caps and len(residues) == 1012,
